@@ -9,7 +9,7 @@ open LyModel LyModel.Tree
 theorem takeWhile_append_of {α : Type} (p : α → Bool) : ∀ (l1 l2 : List α), (∀ x ∈ l1, p x = true) →
     (∀ x ∈ l2, p x = false) → (l1 ++ l2).takeWhile p = l1
   | [], [], _, _ => rfl
-  | [], y :: ys, _, h2 => by simp [List.takeWhile_cons, h2 y (by simp)]
+  | [], y :: ys, _, h2 => by simp [h2 y (by simp)]
   | x :: xs, l2, h1, h2 => by
     simp only [List.cons_append, List.takeWhile_cons, h1 x (by simp), if_true, List.cons.injEq, true_and]
     exact takeWhile_append_of p xs l2 (fun y hy => h1 y (by simp [hy])) h2
@@ -17,7 +17,7 @@ theorem takeWhile_append_of {α : Type} (p : α → Bool) : ∀ (l1 l2 : List α
 theorem dropWhile_append_of {α : Type} (p : α → Bool) : ∀ (l1 l2 : List α), (∀ x ∈ l1, p x = true) →
     (∀ x ∈ l2, p x = false) → (l1 ++ l2).dropWhile p = l2
   | [], [], _, _ => rfl
-  | [], y :: ys, _, h2 => by simp [List.dropWhile_cons, h2 y (by simp)]
+  | [], y :: ys, _, h2 => by simp [h2 y (by simp)]
   | x :: xs, l2, h1, h2 => by
     simp only [List.cons_append, List.dropWhile_cons, h1 x (by simp), if_true]
     exact dropWhile_append_of p xs l2 (fun y hy => h1 y (by simp [hy])) h2
